@@ -130,6 +130,18 @@ pub fn strategy() -> BoxedStrategy<Req> {
     let nt = torsion_encodings().len();
     prop_oneof![
         3 => signing_key_verifiers(),
+        // the identity as the key (k*A = O for every k): (R = [S]B, S) is a VALID signature on every message for
+        // ANY canonical S - the only way to put a chosen S, e.g. one in [2^252, l), into an accepted signature
+        // without forging (added after the seeded change C08g: a pre-check that refused S with bit 252 set)
+        2 => (prop_oneof![3 => scalar_canonical(), 2 => (0u64..1000).prop_map(|d| Sc::from_u64(d + 1).neg().to_bytes()), 2 => (0u64..1000).prop_map(|d| Sc::from_u256(&U256::ONE.shl(252)).add(&Sc::from_u64(d)).to_bytes())], message(), 0usize..2, any::<bool>(), super::c08::context_ok())
+            .prop_map(|(s, m, enc, has, ctx)| {
+                let ids: Vec<[u8; 32]> = torsion_encodings().iter().filter(|e| Aff::decompress(e).unwrap().is_identity()).cloned().collect();
+                let a = ids[enc % ids.len()];
+                let mut sig = [0u8; 64];
+                sig[..32].copy_from_slice(&Aff::basepoint().mul(&U256::from_le(&s)).compress());
+                sig[32..].copy_from_slice(&s);
+                req(&a, m, &sig, ctx, has)
+            }),
         1 => byte_pairs(prop_oneof![2 => edwards_encoding().prop_map(|(_, e)| e), 1 => (0..torsion_encodings().len()).prop_map(|i| torsion_encodings()[i])].boxed()).prop_map(|(a, b)| Req::new("sig.key_eq", vec![a.to_vec(), b.to_vec()])),
         3 => mixed_order_small_r(),
         // honest
